@@ -109,7 +109,7 @@ bool get_debug_flag(const std::string& name, const std::set<std::string>& debug_
 }
 
 int main(int argc, char* const* argv)
-{
+try {
     pipe_in = !isatty(fileno(stdin)) || std::getenv("DEBUG_SET_PIPE_IN");
     pipe_out = !isatty(fileno(stdout)) || std::getenv("DEBUG_SET_PIPE_OUT");
     if (pipe_in || pipe_out) btc_logf = btc_logf_dummy;
@@ -373,6 +373,9 @@ int main(int argc, char* const* argv)
         }
         kerl_run("btcdeb> ");
     }
+} catch (const std::exception& ex) {
+    fprintf(stderr, "error: exception thrown: %s\n", ex.what());
+    return 1;
 }
 
 static const char* opnames[] = {
